@@ -163,7 +163,8 @@ class AccessMixin:
                         self.qdepth = q
                     if not z3.is_true(tp):
                         guard = z3.And(r >= 0, z3.Or([self.st.read("$type", r) == c.cid for c in subs]))
-                        self.st.assume(z3.ForAll([r], z3.Implies(guard, tp), patterns=[sel]))
+                        from .executor import _forall_pat
+                        self.st.assume(_forall_pat([r], z3.Implies(guard, tp), sel))     # `sel` may contain an ite after a conditional store
         if fty is None:
             # refs stored in the heap are allocated
             self.st.assume(z3.Implies(Val.is_VRef(t), RID(t) < self.st.alloc))
